@@ -39,6 +39,10 @@ def dense_family():
     out.append(("dense.c", h + "int\tg_first;\n\nchar\t*ft_msg(void)\n{\n\treturn (\"50\\% done \\x\"); \n}\n\nint\tg_late;\n"))
     out.append(("dense.c", h + "char\t*g_s = \"a\\qb\";\nint\tg_first;\n\nint\tmain(void)\n{\n\treturn(0);\n}\n"))
     out.append(("dense.h", hh_() + "#ifndef DENSE_H\n# define DENSE_H\n\n# define MSG \"100\\%\"\n\nextern int\tg_count; \nextern char\t*g_name;\n\n#endif\n"))
+    # a diagnostic with several highlights whose span holds another diagnostic (an escape notice inside an
+    # unterminated string / character constant; bad digits inside a long constant)
+    out.append(("dense.c", h + "char\t*g_s = \"ab\\qcd"))
+    out.append(("dense.c", h + "char\t*g_s = \"ab\\qcd\n\nint\tmain(void)\n{\n\treturn ('\\q + 0789);\n}\n"))
     # line splices right after an unterminated literal / at the end of a line that is followed by an empty line, with
     # a diagnostic on the last line of the file: a line counter that runs ahead shows as a position past the file
     hh = header42.header_text("dense.h") + "\n"
@@ -140,17 +144,10 @@ def printed(o):
 
 
 def span_excluded(a, b):
-    """Pairs no file can produce: a printed position strictly inside the other's highlight span
-    (several highlights of one lexical diagnostic lie inside one token)."""
-    def inside(x, y):
-        if len(y[1]) < 2:
-            return False
-        lo = min((h[0], h[1]) for h in y[1])
-        hi = max((h[0], h[1]) for h in y[1])
-        p = (x[1][0][0], x[1][0][1])
-        return lo <= p <= hi and len(set((h[0], h[1]) for h in y[1])) > 1
-    return inside(a, b) or inside(b, a) or len(a[1]) > 1 and a[1][0][:2] != min(h[:2] for h in a[1]) \
-        or len(b[1]) > 1 and b[1][0][:2] != min(h[:2] for h in b[1])
+    """No pair is excluded any more.  (Earlier rounds skipped the pairs in which the printed position of one diagnostic
+    lies inside the highlight span of another, on the belief that no file produces them; an UNKNOWN_ESCAPE inside an
+    unterminated string does, and the comparator then sorted on the *last* highlight: defect repaired in /repo.)"""
+    return False
 
 
 def comparator_task(chunk_idx):
